@@ -1529,6 +1529,10 @@ impl World {
                 let k = (*mpk).min(self.mpks.len() - 1);
                 let Some(ap) = self.to_real_policy(text) else { return };
                 let exp = self.mpks[k].m.encaps(pol);
+                if self.p.name == "static-cover" && matches!(exp, Err(MErr::NoPublicKey)) && has_dup_clause(pol) {
+                    self.dup_clause_probe(k, pol, &ap, op);
+                    return;
+                }
                 let out = call(|| self.cc.encaps(&self.mpks[k].mpk, &ap));
                 let why = match &exp {
                     Err(MErr::NoPublicKey) => "no-public-key",
@@ -1739,6 +1743,46 @@ impl World {
         self.stats.states.insert(fnv(st.as_bytes()));
     }
 
+    /// An encryption policy with a conjunction naming one dimension twice designates no right: the
+    /// code refuses it. Should it ever accept one, the statement of C02 still binds: a key that does
+    /// not cover *every* attribute of some conjunction must not open the result. (Static workloads
+    /// only: every key is current and every name resolves in the one structure.)
+    fn dup_clause_probe(&mut self, k: usize, pol: &Pol, ap: &AccessPolicy, op: &Op) {
+        let out = call(|| self.cc.encaps(&self.mpks[k].mpk, ap));
+        let (_s, enc) = match out {
+            Out::Ok(x) => x,
+            Out::Err(_) => {
+                self.stats.bump("dup_clause_encaps_refused");
+                return;
+            }
+            Out::Panic(m) => {
+                self.finding("C09", format!("panic:{}", op.kind()), format!("{} panicked: {m}", op.describe()));
+                return;
+            }
+        };
+        self.stats.bump("dup_clause_encaps_accepted");
+        let e_dnf = pol.dnf();
+        for i in 0..self.usks.len() {
+            let upol = self.usks[i].pol.clone();
+            if e_dnf.iter().any(|e| self.mskm.st.covers(&upol, e)) {
+                self.stats.bump("dup_clause_key_covers_every_attribute");
+                continue;
+            }
+            let out = call(|| self.cc.decaps(&self.usks[i].usk, &enc));
+            self.stats.bump("decaps_evaluated");
+            self.stats.bump("dup_clause_must_not_open");
+            if let Out::Ok(Some(_)) = out {
+                let p = if self.p.prop == "C01" { "C02" } else { self.p.prop };
+                self.finding(
+                    p,
+                    "unauthorized-key-opens:conjunction-naming-a-dimension-twice".into(),
+                    format!("key {upol:?} covers no conjunction of {pol:?} (a conjunction names one dimension twice and the key does not cover both attributes) but opens the encapsulation"),
+                );
+                return;
+            }
+        }
+    }
+
     fn after_encaps(&mut self, enc: XEnc, secret: [u8; 32], m: EncM, pol: Pol, from_recaps: bool) {
         // structural: entries, flavour, traps
         match ser(&enc).ok().map(|b| WXenc::parse(&b)) {
@@ -1894,6 +1938,13 @@ impl World {
 // history generation
 // -------------------------------------------------------------------------------------------------
 
+fn has_dup_clause(pol: &Pol) -> bool {
+    pol.dnf().iter().any(|c| {
+        let mut seen = BTreeSet::new();
+        c.iter().any(|(d, _)| !seen.insert(d.clone()))
+    })
+}
+
 pub struct Gen {
     pub rng: Rng,
 }
@@ -2006,6 +2057,36 @@ impl Gen {
                 }
                 Pol::attr("Nope", "A")
             }
+        }
+    }
+
+    /// An encryption policy one conjunction of which names the same dimension twice.
+    fn dup_clause_policy(&mut self, st: &MStruct) -> Pol {
+        let cands: Vec<&String> = st.dims.iter().filter(|(_, d)| d.attrs.len() >= 2).map(|(n, _)| n).collect();
+        if cands.is_empty() {
+            return self.policy(st, 4);
+        }
+        let dn = (*self.rng.pick(&cands)).clone();
+        let d = &st.dims[&dn];
+        let i = self.rng.below(d.attrs.len());
+        let mut j = self.rng.below(d.attrs.len() - 1);
+        if j >= i {
+            j += 1;
+        }
+        let a = Pol::attr(&dn, &d.attrs[i].name);
+        let b = Pol::attr(&dn, &d.attrs[j].name);
+        let others: Vec<(String, String)> =
+            st.all_attrs().into_iter().filter(|(od, _)| od != &dn).map(|(od, oa)| (od, oa.name)).collect();
+        if others.is_empty() {
+            return Pol::And(vec![a, b]);
+        }
+        let (od, oa) = self.rng.pick(&others).clone();
+        let o = Pol::attr(&od, &oa);
+        match self.rng.below(4) {
+            0 => Pol::And(vec![a, b]),
+            1 => Pol::And(vec![Pol::Or(vec![a, o]), b]),
+            2 => Pol::And(vec![a, o, b]),
+            _ => Pol::Or(vec![Pol::And(vec![a, b]), o]),
         }
     }
 
@@ -2209,7 +2290,13 @@ impl Gen {
                     // any public key published so far, biased to the newest
                     let mi = if self.rng.chance(2, 3) { w.mpks.len() - 1 } else { self.rng.below(w.mpks.len()) };
                     let mst = &w.mpks[mi].m.st;
-                    let pol = if invalid { self.invalid_policy(mst, true) } else { self.policy(mst, 4) };
+                    let pol = if invalid {
+                        self.invalid_policy(mst, true)
+                    } else if w.p.name == "static-cover" && self.rng.chance(1, 6) {
+                        self.dup_clause_policy(mst)
+                    } else {
+                        self.policy(mst, 4)
+                    };
                     let text = pol.print(&mut self.rng);
                     return Op::Encaps { mpk: mi, pol, text };
                 }
